@@ -11,6 +11,7 @@ import (
 	"os"
 	"path/filepath"
 	"runtime"
+	"runtime/debug"
 	"sort"
 	"strings"
 	"sync"
@@ -69,6 +70,7 @@ func NewRun(id, tier string, seed int64) *Run {
 		nontrivial: map[string]struct{}{}, Extra: map[string]interface{}{}, Exhaustive: true,
 		Outcomes: map[string]int64{}}
 	r.loadKnown()
+	Current = r
 	return r
 }
 
@@ -105,7 +107,7 @@ func (r *Run) loadKnown() {
 
 // Want reports whether the case with the given id should be executed.
 func (r *Run) Want(caseID string) bool {
-	return r.Only == "" || r.Only == caseID
+	return r.Only == "" || r.Only == caseID || strings.HasPrefix(r.Only, "panic|") // a recorded crash has no case id of its own: replay runs everything
 }
 
 // OverBudget reports whether the internal time budget is used up; the caller should stop enumerating
@@ -260,6 +262,66 @@ func (r *Run) writeEvidence(level string, nviol int) {
 }
 
 // ParallelFor runs f(i) for i in [0,n) on all cores; f must be safe for concurrent use.
+// Current is the run of this process (set by NewRun); ParallelFor and main report panics of the code under test to it.
+var Current *Run
+
+// LibraryPanic classifies a recovered panic by the innermost non-runtime frame of its stack: a frame of the repository (or of
+// one of its dependencies) means the code under test crashed on an explored input; a harness frame means a harness bug.
+// It returns the frame's function name, or "" for a harness panic.
+func LibraryPanic(stack []byte) string {
+	lines := strings.Split(string(stack), "\n")
+	seenPanic := false
+	for _, l := range lines {
+		if strings.HasPrefix(l, "\t") || l == "" || strings.HasPrefix(l, "goroutine ") {
+			continue
+		}
+		fn := l
+		if i := strings.LastIndex(fn, "("); i > 0 {
+			fn = fn[:i]
+		}
+		if strings.HasPrefix(fn, "panic") || strings.HasPrefix(fn, "runtime.") {
+			if strings.HasPrefix(fn, "panic") || strings.HasPrefix(fn, "runtime.gopanic") || strings.HasPrefix(fn, "runtime.panic") || strings.HasPrefix(fn, "runtime.sigpanic") || strings.HasPrefix(fn, "runtime.goPanic") {
+				seenPanic = true
+			}
+			continue
+		}
+		if !seenPanic {
+			continue // frames of the recover handler itself (debug.Stack, deferred closures)
+		}
+		if strings.HasPrefix(fn, "verif/mc/") || strings.HasPrefix(fn, "main.") {
+			return ""
+		}
+		return fn
+	}
+	return ""
+}
+
+// ReportPanic records a panic of the code under test as a violation of the current run and returns true; for a harness
+// panic it returns false (the caller re-panics).
+func ReportPanic(p interface{}, stack []byte, where string) bool {
+	fn := LibraryPanic(stack)
+	if fn == "" || Current == nil {
+		return false
+	}
+	if i := strings.LastIndex(fn, "/"); i >= 0 {
+		fn = fn[i+1:]
+	}
+	Current.Violation("panic-in-code-under-test:"+fn, "panic|"+where, fmt.Sprintf("the code under test panicked on an explored input (%s): %v\n%s", where, p, Trunc(string(stack), 3000)), nil)
+	return true
+}
+
+func guarded(f func(i int), i int) {
+	defer func() {
+		if p := recover(); p != nil {
+			st := debug.Stack()
+			if !ReportPanic(p, st, fmt.Sprintf("parallel-item-%d", i)) {
+				panic(fmt.Sprintf("%v\n%s", p, st))
+			}
+		}
+	}()
+	f(i)
+}
+
 func ParallelFor(n int, f func(i int)) {
 	workers := runtime.GOMAXPROCS(0)
 	if workers > n {
@@ -267,7 +329,7 @@ func ParallelFor(n int, f func(i int)) {
 	}
 	if workers <= 1 {
 		for i := 0; i < n; i++ {
-			f(i)
+			guarded(f, i)
 		}
 		return
 	}
@@ -282,7 +344,7 @@ func ParallelFor(n int, f func(i int)) {
 				if i >= n {
 					return
 				}
-				f(i)
+				guarded(f, i)
 			}
 		}()
 	}
